@@ -256,6 +256,63 @@ func runGen(c *harness.Ctx) harness.Result {
 	c.Stat("samples", int64(len(p.Sample)))
 	if msg, ok := RoundTrip(p, "generated"); !ok {
 		res.Verdict, res.Detail = harness.Violated, msg
+		return res
+	}
+	// The same in-memory object, modified after it has been serialized, must serialize according
+	// to its new contents (no state cached by an earlier Write may leak into the next one).
+	r := c.Rng
+	var what []string
+	for k, n := 0, 1+r.Intn(3); k < n; k++ {
+		switch r.Intn(6) {
+		case 0:
+			if len(p.Location) > 0 {
+				l := p.Location[r.Intn(len(p.Location))]
+				if l.Mapping != nil {
+					l.Mapping = nil
+					what = append(what, "cleared a location's mapping")
+				} else if len(p.Mapping) > 0 {
+					l.Mapping = p.Mapping[r.Intn(len(p.Mapping))]
+					what = append(what, "set a location's mapping")
+				}
+			}
+		case 1:
+			if len(p.Location) > 0 && len(p.Function) > 0 {
+				l := p.Location[r.Intn(len(p.Location))]
+				if len(l.Line) > 0 {
+					l.Line[r.Intn(len(l.Line))].Function = p.Function[r.Intn(len(p.Function))]
+					what = append(what, "pointed a line at another function")
+				}
+			}
+		case 2:
+			if len(p.Sample) > 0 {
+				s := p.Sample[r.Intn(len(p.Sample))]
+				s.Label, s.NumLabel, s.NumUnit = nil, nil, nil
+				what = append(what, "removed a sample's labels")
+			}
+		case 3:
+			if len(p.Sample) > 0 && len(p.Location) > 0 {
+				s := p.Sample[r.Intn(len(p.Sample))]
+				s.Location = append(s.Location, p.Location[r.Intn(len(p.Location))])
+				what = append(what, "appended a location to a sample")
+			}
+		case 4:
+			if len(p.Sample) > 0 {
+				s := p.Sample[r.Intn(len(p.Sample))]
+				s.NumLabel = map[string][]int64{"n": {5, 6}}
+				s.NumUnit = map[string][]string{"n": {"kb", ""}}
+				what = append(what, "replaced numeric labels")
+			}
+		case 5:
+			p.PeriodType, p.DropFrames, p.DefaultSampleType = nil, "", ""
+			p.Comments = nil
+			what = append(what, "cleared header fields")
+		}
+	}
+	if len(what) > 0 {
+		c.Stat("rewrites_after_mutation", 1)
+		if msg, ok := RoundTrip(p, fmt.Sprintf("same object serialized again after in-place changes %v", what)); !ok {
+			res.Verdict, res.Detail = harness.Violated, msg
+		}
 	}
 	return res
 }
@@ -368,7 +425,7 @@ func init() {
 		ID:    "C01",
 		Level: "exploration",
 		Rule: "part gen: codec-class generator (sparse/huge/boundary ids, 0..4 sample types, 0..4 elements in every repeated field, extreme int64, empty/NUL/non-UTF8/long strings, partial units); part corpus: every repository testdata file that ParseData accepts (protobuf and legacy). part driver: codec-class profiles saved by the real driver with -proto and rendered with -raw and -traces, compared with the direct rendering. " +
-			"oracle per profile: independent wire decoder view == normalised in-memory view; ParseUncompressed/Parse/ParseData of the written bytes == original; gunzip(Write)==WriteUncompressed; byte fixpoint from the first re-serialisation; Copy equal, pointer-disjoint, mutation-isolated; inputs unmodified. " +
+			"oracle per profile: independent wire decoder view == normalised in-memory view; ParseUncompressed/Parse/ParseData of the written bytes == original; gunzip(Write)==WriteUncompressed; byte fixpoint from the first re-serialisation; Copy equal, pointer-disjoint, mutation-isolated; inputs unmodified; the same object changed in place (mapping cleared/set, line re-pointed, labels removed/replaced, header cleared) and serialized again must round-trip according to its new contents. " +
 			"non-trivial = has at least one sample, location or function; distinct = distinct table-size signature (or file)",
 		Assumptions: []string{"normalisation N: labels with empty string value, and numeric value 0 without unit, are unrepresentable in proto3 and dropped", "NumUnit is absent or as long as NumLabel (documented contract)"},
 		Parts: []harness.Part{
